@@ -26,7 +26,8 @@ RULE = ("fork-join programs: 2-4 units (threads or asyncio tasks, nested spawns 
         "`with h.context():` on an action of an ancestor that is open during the unit's whole life (several units on the SAME action, "
         "overlapping), and `with h:` in one unit on an action created for it by its spawner (possibly before the handle exists: the unit waits); units spawned inside a `with h.context():` segment which the creator leaves "
         "before the unit logs; plus 9 thread schedules of two failing actions with exception extractors (one raising), one thread parked "
-        "inside the delivery of its eliot:traceback message (oracle only, not in the Lean model); schedules: ALL interleavings of small programs "
+        "inside the delivery of its eliot:traceback message, and of two threads registering extractors for two classes, one parked before "
+        "each source line of register_exception_extractor (both oracle only, not in the Lean model); schedules: ALL interleavings of small programs "
         "(<= 2 units x <= 3 steps inside the fork), random enabled picks (+ some disabled picks) for larger ones; "
         "non-trivial = >= 1 preemption while the preempted unit is inside an action it entered or inherited; distinct by canonical hash")
 TRUSTED = ["CPython contextvars semantics for threads (fresh context) and asyncio tasks (copy at creation) are modelled (Ctx.step), validated by this run",
@@ -1031,6 +1032,122 @@ def check_extractor(ctx, case, obs, ref):
 
 
 
+# ---- two threads registering exception extractors ---------------------------------------------------
+# Oracle only (no Lean model; shared registry, not context): thread A is parked before its n-th source line inside
+# `register_exception_extractor` (a line tracer in that thread only), thread B registers an extractor for another
+# class meanwhile; afterwards an action failed with either class must carry the fields of its own extractor.
+
+class RegA(Exception):
+    pass
+
+
+class RegB(Exception):
+    pass
+
+
+def run_registration(case):
+    import sys
+    import threading
+    import eliot
+    from eliot import MemoryLogger, start_action
+    from eliot.testing import swap_logger
+    from eliot._errors import _error_extraction
+
+    park = case.get("park")
+    try:
+        target = _error_extraction.register_exception_extractor.__func__.__code__
+    except Exception:  # noqa
+        target = None
+    parked, release, finished_a = threading.Event(), threading.Event(), threading.Event()
+    count = [0]
+    problems = []
+
+    def local(frame, event, arg):
+        if event == "line":
+            count[0] += 1
+            if park is not None and count[0] == park:
+                parked.set()
+                release.wait(TIMEOUT)
+        return local
+
+    def tracer(frame, event, arg):
+        return local if frame.f_code is target else None
+
+    def a():
+        sys.settrace(tracer)
+        try:
+            eliot.register_exception_extractor(RegA, lambda e: {"reg_a": 1})
+        except BaseException as e:  # noqa
+            problems.append("A raised %s" % type(e).__name__)
+        finally:
+            sys.settrace(None)
+            finished_a.set()
+            parked.set()
+
+    def b():
+        try:
+            eliot.register_exception_extractor(RegB, lambda e: {"reg_b": 2})
+        except BaseException as e:  # noqa
+            problems.append("B raised %s" % type(e).__name__)
+
+    lg = MemoryLogger()
+    prev = swap_logger(lg)
+    try:
+        ta = threading.Thread(target=a, daemon=True)
+        tb = threading.Thread(target=b, daemon=True)
+        if case.get("order") == "B;A":
+            tb.start(); tb.join(TIMEOUT); ta.start(); ta.join(TIMEOUT)
+        else:
+            ta.start()
+            parked.wait(TIMEOUT)             # A is inside the registration (or through with it)
+            tb.start(); tb.join(TIMEOUT)
+            release.set()
+            ta.join(TIMEOUT)
+        if ta.is_alive() or tb.is_alive():
+            problems.append("a thread did not finish")
+        for cls in (RegA, RegB):
+            try:
+                with start_action(action_type=cls.__name__):
+                    raise cls("x")
+            except cls:
+                pass
+    finally:
+        release.set()
+        swap_logger(prev)
+        for reg in {id(_error_extraction.registry): _error_extraction.registry}.values():
+            reg.pop(RegA, None)
+            reg.pop(RegB, None)
+    ends = {m.get("action_type"): {k: v for k, v in m.items() if k in ("reg_a", "reg_b")} for m in lg.messages if m.get("action_status") == "failed"}
+    return dict(ends=ends, lines=count[0], was_parked=bool(park is not None and count[0] >= park), problems=problems)
+
+
+def check_registration(ctx, case, obs):
+    if obs["problems"]:
+        ctx.violation("registration scenario did not run: %s" % obs["problems"][0], case, key={"component": "extractor-registration"})
+        return
+    want = {"RegA": {"reg_a": 1}, "RegB": {"reg_b": 2}}
+    if obs["ends"] != want:
+        ctx.violation("two threads registered extractors for two classes (A parked before its line %s of register_exception_extractor while B "
+                      "registered); the failed actions then carry %s, expected %s" % (case.get("park"), obs["ends"], want), case,
+                      key={"component": "extractor-registration"})
+
+
+def evaluate_registration(ctx):
+    for case in (dict(kind="registration", order="A;B", park=None), dict(kind="registration", order="B;A", park=None)):
+        obs = run_registration(case)
+        ctx.case(case, nontrivial=False, tags=["registration"])
+        check_registration(ctx, case, obs)
+    n = 1
+    while n <= 12:
+        case = dict(kind="registration", order="A[B]", park=n)
+        obs = run_registration(case)
+        if not obs["was_parked"] and not obs["problems"]:
+            break                            # A has no n-th line inside the function
+        ctx.case(case, nontrivial=True, tags=["registration", "registration:parked"])
+        check_registration(ctx, case, obs)
+        n += 1
+
+
 def small_programs():
     """<= 2 units, <= 3 steps each inside the fork; every interleaving is run"""
     progs = []
@@ -1077,6 +1194,7 @@ def small_programs():
 
 def run(ctx):
     evaluate_extractors(ctx)
+    evaluate_registration(ctx)
     rng = ctx.rng("gen")
     # exhaustive part
     cases = []
@@ -1115,6 +1233,11 @@ def run(ctx):
 
 def replay(ctx, obj):
     case = obj.get("case") or {}
+    if case.get("kind") == "registration":
+        obs = run_registration(case)
+        print(obs)
+        check_registration(ctx, case, obs)
+        return
     if case.get("kind") == "extractor":
         ref = run_extractor(dict(case, sched="A;B"))
         obs = run_extractor(case)
